@@ -9,29 +9,35 @@
 (* CrossTag = TRUE models a sender that tags stderr chunks as stdout (must *)
 (* break NoCrossing); Reuse = TRUE a sender that reuses one buffer for     *)
 (* consecutive chunks (must break Prefix).                                 *)
+(* Handover = TRUE adds a second host: the first one's connection goes     *)
+(* away (Detach: whatever was on its way to it is lost with it) and        *)
+(* another host attaches to the plugin, which kept running; what that host *)
+(* receives is a gap-free, in-order run of what was written (Run).         *)
+(* Requeue = TRUE models a sender that puts the chunk it could not send    *)
+(* back behind the output that followed it (must break Run).               *)
 (***************************************************************************)
 EXTENDS Integers, Sequences, FiniteSets, SequencesExt, TLC
 
-CONSTANTS MaxWrites, OneFifo, CrossTag, Reuse
+CONSTANTS MaxWrites, OneFifo, CrossTag, Reuse, Handover, Requeue
 Streams == {"out", "err"}
 
-VARIABLES written, pipe, chunk, fifo, delivered, nw, lastbuf
-sv == <<written, pipe, chunk, fifo, delivered, nw, lastbuf>>
+VARIABLES written, pipe, chunk, fifo, delivered, nw, lastbuf, gen
+sv == <<written, pipe, chunk, fifo, delivered, nw, lastbuf, gen>>
 
 SInit == /\ written = [s \in Streams |-> <<>>] /\ pipe = [s \in Streams |-> <<>>]
          /\ chunk = [s \in Streams |-> <<>>] /\ fifo = [s \in Streams |-> <<>>]
-         /\ delivered = [s \in Streams |-> <<>>] /\ nw = 0 /\ lastbuf = <<>>
+         /\ delivered = [s \in Streams |-> <<>>] /\ nw = 0 /\ lastbuf = <<>> /\ gen = 1
 
 \* the plugin writes the next token (tokens are numbered, so any token identifies stream and position)
 Write(s) == /\ nw < MaxWrites /\ nw' = nw + 1
             /\ written' = [written EXCEPT ![s] = Append(@, <<s, Len(@) + 1>>)]
             /\ pipe' = [pipe EXCEPT ![s] = Append(@, <<s, Len(written[s]) + 1>>)]
-            /\ UNCHANGED <<chunk, fifo, delivered, lastbuf>>
+            /\ UNCHANGED <<chunk, fifo, delivered, lastbuf, gen>>
 \* the reader goroutine takes a non-empty prefix of the pipe as one chunk
 Read(s, k) == /\ chunk[s] = <<>> /\ k \in 1..Len(pipe[s])
               /\ chunk' = [chunk EXCEPT ![s] = SubSeq(pipe[s], 1, k)]
               /\ pipe' = [pipe EXCEPT ![s] = SubSeq(pipe[s], k + 1, Len(pipe[s]))]
-              /\ UNCHANGED <<written, fifo, delivered, nw, lastbuf>>
+              /\ UNCHANGED <<written, fifo, delivered, nw, lastbuf, gen>>
 Q(s) == IF OneFifo THEN "out" ELSE s          \* which FIFO carries stream s
 \* the chunk is sent, tagged with its stream
 Send(s) == /\ chunk[s] # <<>>
@@ -40,19 +46,37 @@ Send(s) == /\ chunk[s] # <<>>
               /\ fifo' = [fifo EXCEPT ![Q(s)] = Append(@, <<tag, data>>)]
               /\ lastbuf' = chunk[s]
            /\ chunk' = [chunk EXCEPT ![s] = <<>>]
-           /\ UNCHANGED <<written, pipe, delivered, nw>>
+           /\ UNCHANGED <<written, pipe, delivered, nw, gen>>
 \* the host takes the next message and writes it to the writer of its tag
 Deliver(q) == /\ fifo[q] # <<>>
               /\ LET m == Head(fifo[q]) IN delivered' = [delivered EXCEPT ![m[1]] = @ \o m[2]]
               /\ fifo' = [fifo EXCEPT ![q] = Tail(@)]
-              /\ UNCHANGED <<written, pipe, chunk, nw, lastbuf>>
-SNext == \E s \in Streams : Write(s) \/ Send(s) \/ Deliver(s) \/ \E k \in 1..MaxWrites : Read(s, k)
+              /\ UNCHANGED <<written, pipe, chunk, nw, lastbuf, gen>>
+\* the first host's connection goes away; the plugin keeps running and the next host attaches at once.
+\* What was in flight to the first host is gone with it, and so is the chunk whose send failed --
+\* unless the sender puts it back (Requeue), which it does behind the chunk the reader goroutine has
+\* meanwhile taken from the pipe.
+Detach ==
+  /\ Handover /\ gen = 1 /\ gen' = 2
+  /\ fifo' = [s \in Streams |-> <<>>]
+  /\ delivered' = [s \in Streams |-> <<>>]
+  /\ IF Requeue
+       THEN \E s \in Streams, k \in 1..MaxWrites :
+              /\ chunk[s] # <<>> /\ k \in 1..Len(pipe[s])
+              /\ chunk' = [chunk EXCEPT ![s] = SubSeq(pipe[s], 1, k)]
+              /\ pipe' = [pipe EXCEPT ![s] = chunk[s] \o SubSeq(pipe[s], k + 1, Len(pipe[s]))]
+       ELSE chunk' = [s \in Streams |-> <<>>] /\ UNCHANGED pipe
+  /\ UNCHANGED <<written, nw, lastbuf>>
+SNext == Detach \/ \E s \in Streams : Write(s) \/ Send(s) \/ Deliver(s) \/ \E k \in 1..MaxWrites : Read(s, k)
 SSpec == SInit /\ [][SNext]_sv /\ WF_sv(SNext)
 
 \* C11
-Prefix == \A s \in Streams : IsPrefix(delivered[s], written[s])        \* exactly once, in order, nothing invented
+Prefix == gen = 1 => \A s \in Streams : IsPrefix(delivered[s], written[s])        \* exactly once, in order, nothing invented
+\* whichever host: what it has received so far is a gap-free run of what was written, in order
+IsRun(d, w) == \E off \in 0..(Len(w) - Len(d)) : SubSeq(w, off + 1, off + Len(d)) = d
+Run == \A s \in Streams : Len(delivered[s]) <= Len(written[s]) /\ IsRun(delivered[s], written[s])
 NoCrossing == \A s \in Streams : \A k \in 1..Len(delivered[s]) : delivered[s][k][1] = s
 Quiet == \A s \in Streams : pipe[s] = <<>> /\ chunk[s] = <<>> /\ fifo[s] = <<>>
-Complete == (Quiet /\ nw = MaxWrites) => \A s \in Streams : delivered[s] = written[s]
-EventuallyAll == <>(\A s \in Streams : nw = MaxWrites => delivered[s] = written[s])
+Complete == (gen = 1 /\ Quiet /\ nw = MaxWrites) => \A s \in Streams : delivered[s] = written[s]
+EventuallyAll == <>(\A s \in Streams : (gen = 1 /\ nw = MaxWrites) => delivered[s] = written[s])
 =============================================================================
